@@ -44,3 +44,11 @@ chk('C04', 'exploration',
     'against llvm-dwarfdump on a sample of every run.',
     'Generator independent of elftools; names from vendored registries; llvm-dwarfdump 14 as cross-validator (declines unknown forms).',
     'ground-truth generator oracle + stream-position poisoning + third-implementation cross-validation', 'DESIGN.md section 4 C04')
+chk('C13', 'exploration',
+    'Ground-truth / interval-model oracle: generated .debug_aranges (mixed address sizes, empty sets, unsorted ranges) queried at every '
+    'boundary class; generated .debug_pubnames/.debug_pubtypes through the whole mapping interface; get_CU_containing at EVERY offset of '
+    'generated multi-unit .debug_info sections in ascending, descending and random order on fresh objects, offset-exact lookups first in '
+    'arbitrary order followed by containing lookups and full iteration, out-of-range offsets; streams repositioned between calls.',
+    'Non-overlapping ranges, unique names, tuple-aligned set starts (unaligned starts are ambiguous between implementations); aranges '
+    'generator cross-validated against llvm-dwarfdump in every run.',
+    'ground-truth generator + interval model oracle, exhaustive offset queries per section, stream poisoning', 'DESIGN.md section 4 C13')
